@@ -154,7 +154,8 @@ func canon(obj slip.Object, depth int) *cv {
 		}
 		return leaf("bits", sb.String())
 	case slip.Funky:
-		out := &cv{k: "fn", s: strings.ToLower(v.GetName())}
+		// named by Go type: the reader builds *cl.Quote, *cl.Function, *cl.Backquote, *cl.Comma, *cl.CommaAt
+		out := &cv{k: "fn", s: strings.ToLower(strings.TrimPrefix(fmt.Sprintf("%T", obj), "*cl."))}
 		for _, e := range v.GetArgs() {
 			out.kids = append(out.kids, canon(e, depth+1))
 		}
@@ -167,29 +168,36 @@ func canon(obj slip.Object, depth int) *cv {
 }
 
 // diff finds the first difference between two trees (pre-order). shape is one
-// of "" (equal), "structure", "extra-prefix", "lost-prefix", "other".
+// of "" (equal), "structure", "extra-prefix", "lost-prefix", "other"; path is
+// the list of child indexes leading to the differing node.
 func diff(want, got *cv) (shape string, w, g *cv) {
-	if want.k != got.k || len(want.kids) != len(got.kids) {
-		if len(want.kids) == 0 && len(got.kids) == 0 {
-			return leafShape(want, got), want, got
+	shape, w, g, _ = diffPath(want, got, nil)
+	return
+}
+
+func diffPath(want, got *cv, path []int) (shape string, w, g *cv, at []int) {
+	if len(want.kids) == 0 && len(got.kids) == 0 {
+		if want.k == got.k && want.s == got.s {
+			return "", nil, nil, nil
 		}
-		return "structure", want, got
+		return leafShape(want, got), want, got, path
 	}
-	if len(want.kids) == 0 {
-		if want.s == got.s {
-			return "", nil, nil
-		}
-		return leafShape(want, got), want, got
+	if want.k != got.k || want.s != got.s {
+		return "structure", want, got, path
 	}
-	if want.s != got.s {
-		return "structure", want, got
+	n := len(want.kids)
+	if len(got.kids) < n {
+		n = len(got.kids)
 	}
-	for i := range want.kids {
-		if s, w2, g2 := diff(want.kids[i], got.kids[i]); s != "" {
-			return s, w2, g2
+	for i := 0; i < n; i++ {
+		if s, w2, g2, p2 := diffPath(want.kids[i], got.kids[i], append(append([]int{}, path...), i)); s != "" {
+			return s, w2, g2, p2
 		}
 	}
-	return "", nil, nil
+	if len(want.kids) != len(got.kids) {
+		return "structure", want, got, append(append([]int{}, path...), n)
+	}
+	return "", nil, nil, nil
 }
 
 func leafText(v *cv) string {
